@@ -127,6 +127,10 @@ def main():
         lines = [l for l in case.keylog.split("\n") if l]
         half = len(lines) // 2
         variants = [("file " + how, case.capture, decorate(rng, case.keylog, how)) for how in ("crlf", "shuffled", "decorated", "duplicates", "doubled", "repeated-in-front", "uppercase", "no-final-newline")]
+        # comment lines are free text: UTF-8 and Latin-1 encoded non-ASCII characters, in a file and in a DSB
+        noisy = "# Schl\u00fcssel f\u00fcr \u2603\n".encode("utf-8") + case.keylog.encode() + b"# caf\xe9 \xff\xfe\n"
+        variants.append(("file with non-ASCII comment lines", case.capture, noisy))
+        variants.append(("one DSB with non-ASCII comment lines, no -s", synth.pcapng(pk, dsbs_before=[noisy]), None))
         variants.append(("one DSB before the packets, no -s, other working directory", synth.pcapng(pk, dsbs_before=[case.keylog]), None))
         variants.append(("two DSBs before the packets, no -s", synth.pcapng(pk, dsbs_before=["\n".join(lines[:half]) + "\n", "\n".join(lines[half:]) + "\n"]), None))
         variants.append(("file (half) + DSB (other half, CRLF)", synth.pcapng(pk, dsbs_before=["\r\n".join(lines[half:]) + "\r\n"]), "\n".join(lines[:half]) + "\n"))
@@ -145,7 +149,7 @@ def main():
             ck.case(("supply", i, label), sample=({"supply": label, "connections": [c.kind for c in case.conns]} if ck.cov["evaluations"] % 41 == 0 else None))
             if (st2, out2) != (st, base):
                 fails.append({"what": "%s: export differs from the export with the plain key-log file (%s, %s bytes vs %s, %s bytes); connections %s" % (
-                    label, st2, len(out2 or b""), st, len(base or b""), [c.kind for c in case.conns]), "capture": cap.hex(), "keylog": keylog, "args": args,
+                    label, st2, len(out2 or b""), st, len(base or b""), [c.kind for c in case.conns]), "capture": cap.hex(), "keylog": keylog.decode("latin-1") if isinstance(keylog, bytes) else keylog, "args": args,
                     "baseline_capture": case.capture.hex(), "baseline_keylog": case.keylog})
             if m and n_model > 0 and label.startswith(("two DSBs", "DSB in the middle")):
                 n_model -= 1
@@ -164,7 +168,7 @@ def main():
     ck.cov["rule"] = ("(1) key-log texts of 0..8 lines (valid lines with any label, random upper/lower-case hex, trailing blanks; comments, blank and unrelated lines; one text in three "
                       "with near-miss lines: odd/empty secret, 63/65-digit random, lower-case label, doubled blank, tab, glued characters, leading blank, label of 2/33 characters, "
                       "extra field), LF or CRLF: the model's key list against get_keys_from_string; (2) captures of 1..4 TLS/QUIC connections exported with the plain key-log "
-                      "file and with the same secrets as CRLF / shuffled / decorated / duplicated / upper-case / unterminated file, as one or two DSBs without -s from another "
+                      "file and with the same secrets as CRLF / shuffled / decorated / duplicated / upper-case / unterminated file, with non-ASCII comment lines (file and DSB), as one or two DSBs without -s from another "
                       "working directory, as file + DSB, and (TLS only) as a DSB in the middle or after the packets: every export must be byte-identical")
     ck.cov["dimension_histogram"] = dict(sorted(hist.items()))
     if disagreements:
